@@ -100,6 +100,36 @@ pub fn cps(s: &str) -> Vec<u32> {
 /// the library on (list, settings) through a fresh builder with the canonical setter order
 /// It runs on a FRESH thread so that no per-thread state left behind by earlier builds of the
 /// code under test can leak into the reference result.
+/// C01 observed on a build inside a history: does the returned pattern compile, and how many test cases does it
+/// fail to match as a whole? A failure counts only if two engines agree (the regex crate's meta engine and
+/// regex-automata's PikeVM, which has no prefilters and no lazy DFA).
+pub fn soundness(out: &str, tcs: &[String]) -> (bool, usize, bool) {
+    let anchored = format!("^(?:{})$", out);
+    let re = match regex::Regex::new(&anchored) {
+        Ok(r) => r,
+        Err(_) => return (false, 0, false),
+    };
+    let vm = regex_automata::nfa::thompson::pikevm::PikeVM::new(&anchored).ok();
+    let mut cache = vm.as_ref().map(|v| v.create_cache());
+    let mut failed = 0;
+    let mut eps_only = true;
+    for t in tcs {
+        if re.is_match(t) {
+            continue;
+        }
+        if let (Some(v), Some(c)) = (&vm, cache.as_mut()) {
+            if v.is_match(c, t.as_str()) {
+                continue; // the engines disagree: not evidence against grex
+            }
+        }
+        failed += 1;
+        if !t.is_empty() {
+            eps_only = false;
+        }
+    }
+    (true, failed, failed > 0 && eps_only)
+}
+
 pub fn lib_out(list: &[String], cfg: &Cfg) -> Result<String, String> {
     let (l, c) = (list.to_vec(), cfg.clone());
     std::thread::spawn(move || crate::model::plain_build(&l, &c))
@@ -209,8 +239,9 @@ pub fn random_history(rng: &mut StdRng, max_ops: usize, allow_errors: bool) -> (
 pub fn structured_history(rng: &mut StdRng) -> (Vec<Vec<String>>, Vec<Op>) {
     let mixed = ["Bxx", "ayy", "Abc", "aBc", "abC", "ZZ", "zy", "Ka", "kA", "b", "B", "\u{130}x", "i\u{307}x", "\u{212A}", "k"];
     let repeats = ["aaa", "aaaa", "abab", "ababab", "aaaab", "xyxyxy", "1111", "11a11a", "aabb", "abcabc", "zzzzz"];
-    let family = rng.gen_range(0..5);
-    let pool: &[&str] = if family == 0 || family == 4 || (family == 3 && rng.gen_bool(0.5)) { &mixed } else { &repeats };
+    let astral = ["\u{1F4A9}", "a\u{1F4A9}b", "\u{e9}t\u{e9}", "x\u{1F600}y\u{1F600}", "ab", "\u{10FFFF}z", "\u{1D7D7}1", "aaa\u{1F4A9}\u{1F4A9}\u{1F4A9}"];
+    let family = rng.gen_range(0..6);
+    let pool: &[&str] = if family == 5 { &astral } else if family == 0 || family == 4 || (family == 3 && rng.gen_bool(0.5)) { &mixed } else { &repeats };
     let mut list: Vec<String> = vec![];
     for _ in 0..rng.gen_range(2..=4) {
         list.push(pool[rng.gen_range(0..pool.len())].to_string());
@@ -252,6 +283,33 @@ pub fn structured_history(rng: &mut StdRng) -> (Vec<Vec<String>>, Vec<Op>) {
             ops.push(set_op("minsub", rng.gen_range(2..=3)));
             ops.push(Op::Build { o: 1 });
             ops.push(set_op(["digit", "word", "icase", "escape"][rng.gen_range(0..4)], 0));
+            ops.push(Op::Build { o: 1 });
+        }
+        5 => {
+            // the settings that carry a value (escape's surrogate flag, the two thresholds) can be set again: the LAST
+            // call decides, whatever was built in between; repeated boolean setters are idempotent
+            let a: Vec<i64> = (0..3).map(|_| rng.gen_range(0..=1)).collect();
+            ops.push(set_op("escape", a[0]));
+            if rng.gen_bool(0.5) {
+                ops.push(Op::Build { o: 1 });
+            }
+            if rng.gen_bool(0.5) {
+                ops.push(set_op(["rep", "digit", "word", "icase", "verbose", "nostart"][rng.gen_range(0..6)], 0));
+            }
+            ops.push(set_op("escape", a[1]));
+            ops.push(Op::Build { o: 1 });
+            if rng.gen_bool(0.5) {
+                ops.push(set_op("rep", 0));
+                ops.push(set_op("rep", 0));
+                ops.push(set_op("minrep", rng.gen_range(1..=3)));
+                ops.push(Op::Build { o: 1 });
+                ops.push(set_op("minrep", rng.gen_range(1..=3)));
+            }
+            ops.push(set_op("escape", a[2]));
+            ops.push(Op::Build { o: 1 });
+            ops.push(Op::Clone { o: 1, ret: 2 });
+            ops.push(Op::Set { o: 2, name: "escape".to_string(), arg: 1 - a[2] });
+            ops.push(Op::Build { o: 2 });
             ops.push(Op::Build { o: 1 });
         }
         4 => {
@@ -359,8 +417,10 @@ pub fn run_rust_history_ref(h: usize, sets: &[Vec<String>], ops: &[Op], proc_ref
                             Ok(s) => intern.id(s),
                             Err(_) => 0,
                         };
+                        let (compiles, failed, failed_eps) = soundness(&out, &sets[set - 1]);
                         evops.push(json!({"op": "build", "o": o, "ok": true, "msg": "", "cfg": cfg.to_json(),
-                                          "sid": intern.id(&out), "libsid": libsid}));
+                                          "sid": intern.id(&out), "libsid": libsid,
+                                          "compiles": compiles, "failed": failed, "failed_eps": failed_eps}));
                         idx.push(json!({"op": "build", "o": o, "out": out, "lib": lib.unwrap_or_else(|e| format!("PANIC {}", e))}));
                     }
                     Err(e) => {
